@@ -289,6 +289,19 @@ def check_geometry(rec: dict, rng: random.Random, report, *, corrupt: str | None
     view("PreReceptive", conn.presyn_receptive, rec["pre0data"], rec["pre0shape"], rec["pre0"])
     view("PreReceptive+out", conn.presyn_receptive, rec["pre1data"], rec["pre1shape"], rec["pre1"])
     view("PostReceptive", conn.postsyn_receptive, rec["outshape"], rec["postshape"], rec["post"])
+    # like_bias: the reduced postsynaptic receptive view, in the layout of the bias (used by bias-learning trainers)
+    if "biasdata" in rec:
+        n += 1
+        bd = [int(x) for x in rec["biasdata"]]
+        d = (torch.arange(int(np.prod(bd)), dtype=torch.float32) + 1).reshape(bd)
+        try:
+            r = conn.like_bias(d)
+            if tuple(r.shape) != tuple(rec["bshape"]):
+                report("Shape:like_bias", {"observed": list(r.shape), "specified": list(rec["bshape"]), "cfg": cfg})
+            elif not np.array_equal(r.numpy().reshape(-1), d.numpy().reshape(-1)):
+                report("LikeBias", {"cfg": cfg, "observed": r.reshape(-1).tolist()[:40], "specified": d.reshape(-1).tolist()[:40]})
+        except Exception as ex:
+            report("LikeBias", {"raised": type(ex).__name__, "msg": str(ex)[:200], "cfg": cfg, "data_shape": bd})
     return n
 
 
